@@ -49,4 +49,10 @@ CHECKS = {
         "assumptions": ["virtual time of testing/synctest stands for the wall clock the provider reads", "goroutine interleavings inside a burst are those the Go scheduler produces"],
         "timeout_quick": 400, "timeout_thorough": 1800,
     },
+    "C16": {
+        "pkg": "c16", "race": True,
+        "rule": "rapid-generated completion schedules for MeasureClockOffsets under virtual time (synctest), race detector on.",
+        "assumptions": ["orders among goroutines that become ready at the same virtual instant are chosen by the Go runtime; results completing exactly at the stop instant are accepted either way"],
+        "timeout_quick": 400, "timeout_thorough": 1800,
+    },
 }
